@@ -166,16 +166,50 @@ func TestC14aEvidenceSoundness(t *testing.T) {
 		var all []*bft.DoubleSignEvidence
 		for k := 0; k < nEv; k++ {
 			kind := rapid.SampledFrom([]string{"conflict", "conflict", "conflict", "cross-view", "cross-view-forged-header", "same-cert-twice",
-				"same-payload-two-subsets", "election-votes", "unsigned-bits", "expired", "payload-attached", "garbage", "sig-swap"}).Draw(rt, "kind")
+				"same-payload-two-subsets", "election-votes", "unsigned-bits", "expired", "expired", "expired", "payload-attached", "garbage", "sig-swap"}).Draw(rt, "kind")
 			s.Cfg.MinEvidenceHeight = 0
 			x, note := buildEvidence(rt, rng, w, kind)
 			if x == nil {
 				continue
 			}
+			// the minimum evidence height is a ROOT-chain height (Controller.LoadMinimumEvidenceHeight(rootChainId, rootHeight),
+			// DoubleSignEvidence.Check: "can't be too old" on Header.RootHeight): evidence is expired iff its root height is below
+			// it - whatever the chain height of the nested chain is (it may run ahead of or behind its root)
+			expired := false
 			if kind == "expired" && x.VoteA != nil && x.VoteA.Header != nil {
-				s.Cfg.MinEvidenceHeight = x.VoteA.Header.RootHeight + uint64(1+rng.IntN(3))
+				h, r := x.VoteA.Header.Height, x.VoteA.Header.RootHeight
+				lo, hi := min(h, r), max(h, r)
+				pos := rapid.SampledFrom([]string{"below-both", "at-lower", "between", "at-higher", "above-both", "root+1", "at-root"}).Draw(rt, "minEvidenceHeight")
+				var m uint64
+				switch pos {
+				case "below-both":
+					m = lo - min(lo, uint64(1+rng.IntN(2)))
+				case "at-lower":
+					m = lo
+				case "between":
+					m = lo + 1 + uint64(rng.IntN(int(max(hi-lo, 1))))
+				case "at-higher":
+					m = hi
+				case "above-both":
+					m = hi + 1 + uint64(rng.IntN(3))
+				case "root+1":
+					m = r + 1
+				case "at-root":
+					m = r
+				}
+				s.Cfg.MinEvidenceHeight = m
+				expired = r < m
+				rel := "chain-height=root-height"
+				if h > r {
+					rel = "chain-height-ahead-of-root"
+				} else if h < r {
+					rel = "chain-height-behind-root"
+				}
+				c.Class("min-evidence-height:" + pos + "," + rel)
+				c.ClassIf(expired, "evidence-expired-by-root-height")
+				c.ClassIf(expired && m <= h, "expired-by-root-height-but-not-by-chain-height")
+				note += fmt.Sprintf("[minEvidenceHeight=%d]", m)
 			}
-			expired := kind == "expired"
 			tr := truth(s, x)
 			namesHonest := false
 			if x.VoteA != nil && x.VoteB != nil && x.VoteA.Signature != nil && x.VoteB.Signature != nil && x.CheckBasic() == nil {
